@@ -976,3 +976,69 @@ def _decode_request_content(ex, st, args, kwargs, text):
     TABLE.ghost_append(s_none, "out", V.mk_tuple([V.S("status"), V.I(501)]))
     s_none.sig.append("decode:unknown-encoding")
     return [(st, ("val", data)), (s_none, ("val", V.VNone))]
+
+
+# ---------------------------------------------------------------------------------------------------------
+# threading / queue (linearizable contracts, DESIGN section 3)
+import threading as _threading, queue as _queue
+
+T.declare_ghost("q_items", Val)                  # contents of the task queue (a list)
+T.declare_ghost("q_unfinished", z3.IntSort())    # put() minus task_done()
+T.declare_ghost("q_gets", z3.IntSort())          # successful get()/get_nowait() calls
+T.declare_ghost("q_dones", z3.IntSort())         # task_done() calls
+T.declare_ghost("q_puts", z3.IntSort())
+T.declare_ghost("threads_started", z3.IntSort())
+
+EVENT = "threading.Event"
+FIELDS.declare(EVENT, "_flag")
+
+
+def _ctor_event(ex, st, args, kwargs, text):
+    """threading.Event(): a new event, not set"""
+    st = st.copy()
+    e = st.alloc(_threading.Event)
+    st.write(Val.ref(e), "_flag", V.B(False))
+    return [(st, ("val", e))]
+
+
+import pyvc.builtins_model as _B
+_B._CTORS[_threading.Event] = _ctor_event
+
+
+@TABLE.register("threading.Event.set")
+def _ev_set(ex, st, args, kwargs, text):
+    """Event.set(): the flag becomes true (atomic); does not raise"""
+    st = st.copy()
+    st.write(Val.ref(ex.lift(args[0])), "_flag", V.B(True))
+    return [(st, ("val", V.VNone))]
+
+
+@TABLE.register("threading.Event.clear")
+def _ev_clear(ex, st, args, kwargs, text):
+    """Event.clear(): the flag becomes false (atomic); does not raise"""
+    st = st.copy()
+    st.write(Val.ref(ex.lift(args[0])), "_flag", V.B(False))
+    return [(st, ("val", V.VNone))]
+
+
+def _ev_is_set(ex, st, args, kwargs, text):
+    """Event.is_set(): the current flag"""
+    return [(st, ("val", st.read(Val.ref(ex.lift(args[0])), "_flag")))]
+
+
+TABLE.register("threading.Event.is_set", _ev_is_set)
+TABLE.register("threading.Event.isSet", _ev_is_set)
+
+
+@TABLE.register("threading.Event.wait")
+def _ev_wait(ex, st, args, kwargs, text):
+    """Event.wait(timeout): returns True if the flag is (or becomes, through another thread) set, False only after the
+    timeout elapsed with the flag still clear; a True result means the flag is set at return"""
+    e = ex.lift(args[0])
+    st = st.copy()
+    flag = st.read(Val.ref(e), "_flag")
+    b = V.fresh("waited", z3.BoolSort())
+    st.assume(z3.Implies(Val.b(flag), b))
+    # another thread may have set it while we waited
+    st.write(Val.ref(e), "_flag", V.VBool(b))
+    return [(st, ("val", V.VBool(b)))]
